@@ -252,7 +252,12 @@ func runSvcPurge(caseID string, seed int64, root string) {
 	if len(lost) > 0 {
 		sig := "C04/service/accepted-blocks-lost"
 		what := fmt.Sprintf("%d accepted blocks for an active node, younger than MaxAge, are neither delivered nor on disk after Service.Close()", len(lost))
-		if sawGone && d[accepted[0]] {
+		if sawGone && !d[accepted[0]] {
+			// nothing was ever delivered, so no Advance preceded the purge: the ticker
+			// met the still empty queue while the first write was on its way
+			sig = "C04/service/block-lost-when-purge-ticker-removes-queue-during-write"
+			what = fmt.Sprintf("the purge ticker removed a queue it had seen empty while a write was being accepted: %d accepted blocks are neither delivered nor on disk", len(lost))
+		} else if sawGone {
 			sig = "C04/service/nonempty-queue-purged-for-active-node"
 			what = fmt.Sprintf("the purge ticker removed the queue of an active node right after its first block was delivered and advanced, while %d accepted blocks younger than MaxAge were pending (Empty() reported true)", len(lost))
 			r.Count("svc_nonempty_queue_purged", 1)
@@ -291,10 +296,10 @@ func runSvcChurn(caseID string, seed int64, root string) {
 	}
 	var accepted []uint64
 	refused := 0
-	pairs := 1 + g.Intn(3)
+	pairs := n // one block per queue: Empty() is then only asked about queues with 0 or 1 block
 	for i := 0; i < n; i++ {
 		id := uint64(i + 1)
-		if err := svc.WriteShard(uint64(7+i%pairs), 3, []models.Point{idPoint(id)}); err != nil {
+		if err := svc.WriteShard(uint64(100+i), 3, []models.Point{idPoint(id)}); err != nil {
 			refused++
 			continue
 		}
@@ -334,7 +339,7 @@ func runSvcChurn(caseID string, seed int64, root string) {
 		return
 	}
 	if len(accepted) > 0 {
-		r.Nontrivial(fmt.Sprintf("svc-churn|%d|%d", pairs, n/20))
+		r.Nontrivial(fmt.Sprintf("svc-churn|%d", pairs/10))
 	}
 }
 
